@@ -490,6 +490,22 @@ func (f Filter) Accept(ctx context.Context, pgmut *sync.Mutex, pg wpg.Conn, d an
 	return nil
 }
 
+// Reports whether f accepts a 20-byte value only if it equals one
+// of f.Arg. Only then may the arguments be sent to the source as an
+// address restriction: for any other operator (eg !contains, ne) the
+// restriction would ask for exactly the logs the filter rejects.
+func (f Filter) selectsArgs() bool {
+	if len(f.Arg) == 0 || len(f.Ref.Integration) > 0 || len(f.Ref.Table) > 0 {
+		return false
+	}
+	for i := range f.Arg {
+		if len(eth.DecodeHex(f.Arg[i])) != 20 {
+			return false
+		}
+	}
+	return f.Op == "contains" || f.Op == "eq"
+}
+
 func parseArray(elm atype, s string) atype {
 	if !strings.Contains(s, "]") {
 		return elm
@@ -759,7 +775,7 @@ func (ig Integration) Filter() glf.Filter {
 	for i := range ig.Block {
 		fields = append(fields, ig.Block[i].Name)
 
-		if ig.Block[i].Name == "log_addr" && len(ig.Block[i].Filter.Arg) > 0 {
+		if ig.Block[i].Name == "log_addr" && ig.Block[i].Filter.selectsArgs() {
 			for _, arg := range ig.Block[i].Filter.Arg {
 				addrs = append(addrs, eth.EncodeHex(eth.DecodeHex(arg)))
 			}
